@@ -178,6 +178,41 @@ def nth_walk_ok(wi: int, mode: int, last: bool) -> bool:
     return ret(ok)
 
 
+PAIR_MODES = [(0, 2), (2, 0), (2, 2), (0, 1), (1, 2), (0, 0)]
+
+
+def nth_pairs_ok(wi: int, pm: int, last1: bool, last2: bool) -> bool:
+    """
+    pre: 0 <= wi < NW
+    pre: 0 <= pm < len(PAIR_MODES)
+    post: _
+    """
+    # two positional pseudo-classes on one compound (different "of S" / of-type / direction): the element matches iff
+    # it matches each of them alone (positions p, q tried for all p, q)
+    wi, pm, last1, last2 = concrete(wi), concrete(pm), concrete(last1), concrete(last2)
+    with notrace():
+        layout, container = WALK[wi]
+        soup, parent, els = tree(layout, container)
+        m = cm.CSSMatch(ct.SelectorList(), els[0][1] if container == 2 else soup, None, 0)
+        ok = True
+        specs = []
+        for mode, last in ((PAIR_MODES[pm][0], last1), (PAIR_MODES[pm][1], last2)):
+            of_type, of_x = mode == 1, mode == 2
+            sel = ct.SelectorList() if of_type else (S_CLASS_X if of_x else cp.CSS_NTH_OF_S_DEFAULT)
+            specs.append((of_type, of_x, last, sel))
+        for i in range(len(els)):
+            for p in range(1, len(els) + 1):
+                for q in range(1, len(els) + 1):
+                    n1 = SimpleNamespace(a=p, n=False, b=0, of_type=specs[0][0], last=specs[0][2], selectors=specs[0][3])
+                    n2 = SimpleNamespace(a=q, n=False, b=0, of_type=specs[1][0], last=specs[1][2], selectors=specs[1][3])
+                    both = bool(m.match_nth(els[i][1], (n1, n2)))
+                    exp = (ref_position(els, i, specs[0][2], specs[0][0], specs[0][1]) == p and
+                           ref_position(els, i, specs[1][2], specs[1][0], specs[1][1]) == q)
+                    if both != exp:
+                        ok = False
+    return ret(ok)
+
+
 def nth_detached_ok(a: int, b: int, var: bool, last: bool, of_type: bool) -> bool:
     """
     post: _
@@ -329,3 +364,37 @@ KEYWORDS = [
     (':last-of-type', ':nth-last-of-type(1)'), (':only-of-type', ':nth-of-type(1):nth-last-of-type(1)'),
 ]
 KW_COMPILED = [(sv.compile(a), sv.compile(b)) for a, b in KEYWORDS]
+
+
+COMMENT_SPELLINGS = [
+    ('2n/**/+1', 2, 1), ('2n /* s */ + /* t */ 1', 2, 1), ('-n/**/+3', -1, 3), ('n/**/-/**/2', 1, -2), ('3n/* */-1', 3, -1),
+    ('2N/**/+1', 2, 1), ('+n /**/ + 2', 1, 2), ('/**/2n+1', 2, 1), ('2n+1/**/', 2, 1), ('-2n /**/ - 1', -2, -1),
+    ('n \t+\n 4', 1, 4), ('EVEN', 2, 0), ('/* x */odd/* y */', 2, 1), ('5/**/', 0, 5),
+]
+NTH_NAMES = [':nth-child', ':nth-last-child', ':nth-of-type', ':nth-last-of-type', ':NTH-CHILD']
+
+
+def nth_comment_spelling_ok(si: int, ni: int, with_of: bool) -> bool:
+    """
+    pre: 0 <= si < len(COMMENT_SPELLINGS)
+    pre: 0 <= ni < len(NTH_NAMES)
+    post: _
+    """
+    # An+B spellings with comments / mixed whitespace around the sign, through the real compile(): the IR carries the
+    # reference (a, b)
+    si, ni, with_of = concrete(si), concrete(ni), concrete(with_of)
+    with notrace():
+        text, A, B = COMMENT_SPELLINGS[si]
+        name = NTH_NAMES[ni]
+        child = 'child' in name.lower()
+        pat = name + '(' + text + (' of .x' if (with_of and child) else '') + ')'
+        try:
+            c = sv.compile(pat)
+        except Exception:  # noqa: BLE001
+            return ret(False)
+        n = c.selectors[0].nth[0]
+        got = (n.a, n.b) if n.n else (0, n.a)
+        ok = got == (A, B) and n.of_type == (not child) and n.last == ('last' in name.lower())
+        if with_of and child:
+            ok = ok and len(n.selectors) == 1 and n.selectors[0].classes == ('x',)
+    return ret(ok)
